@@ -3,13 +3,14 @@ from decimal import Context, Decimal, ROUND_HALF_EVEN
 
 from hypothesis import strategies as st
 
-from lib.engine import R, V, enum_part, hyp_part
+from lib.engine import R, V, enum_part, hyp_part, concurrent_part
 
 ID = 'C03'
 RULE = ('digit literals written by the harness in the culture\'s own convention: integer part below 10^15 (biased to 10^k, 10^k+-1, group '
         'boundaries), 0-6 fraction digits, forms plain / grouped / decimal / grouped+decimal, optional minus sign, alone or in a carrier '
         'sentence, number model and percentage model; exhaustive part: 0..9999 plain integers per culture; non-trivial = literal with a '
-        'grouping mark, a fraction or a sign; distinct = (culture, model, query)')
+        'grouping mark, a fraction or a sign; distinct = (culture, model, query); concurrent part: the same generated cases evaluated 2-4 at a time on simultaneous threads (switch interval 10 us), '
+        'cases that are clean alone must stay clean')
 ASSUMPTIONS = ['per-culture grouping/decimal marks are typed into the harness (en-us, es-mx, zh-cn, ja-jp: 1,234.5; es-es, fr-fr, pt-br, de-de, '
                'it-it, nl-nl: 1.234,5)', 'values are compared numerically after mapping the culture decimal mark to "."; expected value is the '
                'literal rounded to 15 significant digits (ROUND_HALF_EVEN), the precision the parser documents']
@@ -198,4 +199,6 @@ def parts(tier, seed):
         ps.append(enum_part('plain-0-9999', small_integers, run_case, exhaustive=True))
     for c in CULTURES:
         ps.append(hyp_part('literals-' + c, (lambda c=c: cases(c)), run_case, 1500 if tier == 'quick' else 30000, min_shard=500))
+    ps.append(concurrent_part('concurrent-mixed-cultures', lambda: st.one_of([cases(c) for c in CULTURES]), run_case,
+                              300 if tier == 'quick' else 6000, min_shard=50))
     return ps
